@@ -336,9 +336,9 @@ def random_structure(rng, nmax=6, atoms=('p', 'q')):
 
 # counters of the evidence that must be positive for a run to count (see Result.finish)
 NONEMPTY = {
-    'C01': ['adversarial_name_cases', 'repeated_under_python_O', 'nonconstant_answers'],
-    'C02': ['adversarial_name_cases', 'repeated_under_python_O', 'nonconstant_answers'],
-    'C03': ['adversarial_name_cases', 'degenerate_arity_cases', 'cases_inside_hypotheses_of_ctls_exact', 'repeated_under_python_O'],
+    'C01': ['adversarial_name_cases', 'long_identifier_cases', 'repeated_under_python_O', 'nonconstant_answers'],
+    'C02': ['adversarial_name_cases', 'long_identifier_cases', 'repeated_under_python_O', 'nonconstant_answers'],
+    'C03': ['adversarial_name_cases', 'long_identifier_cases', 'degenerate_arity_cases', 'cases_inside_hypotheses_of_ctls_exact', 'repeated_under_python_O'],
     'C05': ['same_print_different_tree_triples', 'formulas_with_one_or_no_operand_and_or'],
     'C07': ['calls_with_F_compared_with_model', 'threaded_calls'],
     'C08': ['is_a_state_formula_compared', 'formula_api_cases'],
@@ -369,8 +369,20 @@ class Result(object):
     def write_replay(self, what, replay):
         d = os.path.join(ROOT, 'replay')
         os.makedirs(d, exist_ok=True)
-        blob = json.dumps({'property': self.pid, 'what': what, 'seed': SEED, 'replay': replay,
-                           'rerun': './check %s --tier %s' % (self.pid, self.tier)}, indent=1, default=str, sort_keys=True)
+        def clean(x):
+            if isinstance(x, dict):
+                return {(k if isinstance(k, str) else repr(k)): clean(v) for k, v in x.items()}
+            if isinstance(x, (list, tuple)):
+                return [clean(v) for v in x]
+            if isinstance(x, (set, frozenset)):
+                return sorted((clean(v) for v in x), key=repr)
+            return x
+        try:
+            blob = json.dumps({'property': self.pid, 'what': what, 'seed': SEED, 'replay': clean(replay),
+                               'rerun': './check %s --tier %s' % (self.pid, self.tier)}, indent=1, default=str, sort_keys=True)
+        except Exception:
+            blob = json.dumps({'property': self.pid, 'what': what, 'seed': SEED, 'replay': repr(replay)[:20000],
+                               'rerun': './check %s --tier %s' % (self.pid, self.tier)}, indent=1)
         h = hashlib.sha1(blob.encode()).hexdigest()[:10]
         path = os.path.join(d, '%s-%s.json' % (self.pid, h))
         with open(path, 'w') as f:
